@@ -47,6 +47,12 @@ class ForeverBreakWriteHandler(AbstractWriteHandler):
     def write_content(self) -> Vertex | None:
         """Print a break and end"""
         logger.debug("Handling a break_loop; (%s)...", self.start_vertex["op"])
+        if len(self.decompiler.forever_start_handler_stack) < 1:
+            # We REALLY shouldn't land here, if we are outside of a loop, but sometimes loop detection still
+            # raises some "false positives" and builds loops that have break statements reachable from outside
+            # the loop. Nothing must be written then, the jump handler writes a jump instead.
+            logger.warning("While decompiling, tried to generate break_loop; outside loop!")
+            raise FallbackToJump()
         op = self.start_vertex["op"]
         if op.maybe_root is not None and op.root.op_code.name == OP_JUMP:
             # (a break that was inserted after an op that is not a jump carries the offset of that op,
@@ -55,12 +61,6 @@ class ForeverBreakWriteHandler(AbstractWriteHandler):
         self.decompiler.write_stmnt("break_loop;")
         exits = self.start_vertex.out_edges()
         if len(exits) == 1:
-            if len(self.decompiler.forever_start_handler_stack) < 1:
-                # We REALLY shouldn't land here, if we are outside of a loop, but sometimes loop detection still
-                # raises some "false positives" and builds loops that have break statements reachable from outside
-                # the loop
-                logger.warning("While decompiling, tried to generate break_loop; outside loop!")
-                raise FallbackToJump()
             # Make sure the forever start block is aware of the next vertex!
             self.decompiler.forever_start_handler_stack[-1].set_vertex_after(exits[0].target_vertex)
             return None
